@@ -315,6 +315,14 @@ func TestEchHelloCases(t *testing.T) {
 	w := newNDWriter(t, out)
 	defer w.Close()
 	nEval := 0
+	type concItem struct {
+		key   string
+		rec   []byte
+		keys  []ech.Key
+		kind  string
+		first []byte
+	}
+	var conc []concItem
 	var prevRec []byte
 	var prevKeys []ech.Key
 	for ci := range cases {
@@ -382,7 +390,45 @@ func TestEchHelloCases(t *testing.T) {
 				}
 			}
 			w.Write(r)
+			if r.Diff == "" && mode == "plain" && len(conc) < 600 {
+				conc = append(conc, concItem{key: c.key(), rec: rec, keys: keys, kind: o.Kind, first: o.First})
+			}
 		}
+	}
+	// connections are independent also when they are handled at the same time: the cases above once more, from eight
+	// goroutines at once, must end exactly as they did one after the other
+	if len(conc) > 0 {
+		var wg sync.WaitGroup
+		var cmu sync.Mutex
+		reported := 0
+		for g := 0; g < 8; g++ {
+			wg.Add(1)
+			go func(g int) {
+				defer wg.Done()
+				for round := 0; round < 2; round++ {
+					for i := g; i < len(conc); i += 8 {
+						it := conc[(i*7+round*3)%len(conc)]
+						o := runNewConn(it.rec, it.keys)
+						bad := ""
+						if o.Kind != it.kind {
+							bad = fmt.Sprintf("handled concurrently with other connections the hello ends as %q (%s %s), alone as %q", o.Kind, o.Err, o.Panic, it.kind)
+						} else if len(o.First) >= 5 && len(it.first) >= 5 && !bytes.Equal(o.First[3:], it.first[3:]) {
+							bad = "handled concurrently with other connections the first record delivered differs from the one delivered alone"
+						}
+						if bad != "" {
+							cmu.Lock()
+							if reported < 5 {
+								reported++
+								w.Write(echResult{Key: it.key + " (concurrent)", Opts: "concurrent", Obs: o, Diff: bad, Sent: fmt.Sprintf("%x", it.rec)})
+							}
+							cmu.Unlock()
+						}
+					}
+				}
+			}(g)
+		}
+		wg.Wait()
+		nEval += 2 * len(conc)
 	}
 	w.Write(Ev{"summary": true, "evaluations": nEval, "cases": len(cases)})
 }
